@@ -919,6 +919,14 @@ func (e *Env) evalCall(n *CCall) V {
 				e.fail("shares() needs two slices")
 			}
 			return V{T: boolT, S: "(and (not (= (s_base " + a.S + ") 0)) (= (s_base " + a.S + ") (s_base " + b.S + ")))"}
+		case "sameStart":
+			// sameStart(a, b): two slices start at the same element of the same backing array
+			a := e.eval(n.Args[0])
+			b := e.eval(n.Args[1])
+			if !isSliceT(a.T) || !isSliceT(b.T) {
+				e.fail("sameStart() needs two slices")
+			}
+			return V{T: boolT, S: "(and (= (s_base " + a.S + ") (s_base " + b.S + ")) (= (s_off " + a.S + ") (s_off " + b.S + ")))"}
 		case "sameArray":
 			// sameArray(a, b): two slices have the same backing array (possibly both nil)
 			a := e.eval(n.Args[0])
